@@ -25,6 +25,7 @@ type c20Step struct {
 	Fault string `json:"fault"` // "" = valid input
 	NOps  int    `json:"nOps"`
 	Pad   int    `json:"pad"` // bytes of junk appended to pre-existing outputs before the step (simulates longer old output)
+	MoveOps bool `json:"moveOps,omitempty"` // the same operations, now in a file of another name: only sourceLocation in the exported operations changes
 }
 type c20Case struct {
 	Export bool      `json:"export"`
@@ -90,9 +91,16 @@ func c20Write(dir string, st c20Step, export bool) {
 	case "gen-conflicting-typenames":
 		ops += "query C {\n # @genqlient(typename: \"T\")\n user(id: \"1\") { id }\n # @genqlient(typename: \"T\")\n users { name }\n}\n"
 	}
+	os.Remove(filepath.Join(dir, "moved.graphql"))
+	opsFile := "q.graphql"
+	if st.MoveOps {
+		yaml = strings.Replace(yaml, "- q.graphql", "- moved.graphql", 1)
+		os.Remove(filepath.Join(dir, "q.graphql"))
+		opsFile = "moved.graphql"
+	}
 	os.WriteFile(filepath.Join(dir, "genqlient.yaml"), []byte(yaml), 0o644)
 	os.WriteFile(filepath.Join(dir, "schema.graphql"), []byte(schema), 0o644)
-	os.WriteFile(filepath.Join(dir, "q.graphql"), []byte(ops), 0o644)
+	os.WriteFile(filepath.Join(dir, opsFile), []byte(ops), 0o644)
 }
 
 func runC20(c *Ctx) {
@@ -130,6 +138,11 @@ func runC20(c *Ctx) {
 			cs.Steps = append(cs.Steps, c20Step{NOps: 1})
 		}
 		c20Run(c, cs)
+	}
+	// a successful run after a successful run whose generated Go code is byte-identical but whose exported operations
+	// differ (the operations moved to a file of another name), and back
+	for _, export := range []bool{true, false} {
+		c20Run(c, c20Case{Export: export, Steps: []c20Step{{NOps: 2}, {NOps: 2, MoveOps: true}, {NOps: 2}, {NOps: 3, MoveOps: true}}})
 	}
 }
 
